@@ -99,7 +99,8 @@ class Gen:
 
     def name(self, prefix="v"):
         self.n += 1
-        stems = ["alpha", "Beta", "gamma_x", "Delta1", "e2e", "Foo", "bar_", "_q", "Motor", "valve", "cnt", "Lvl"]
+        stems = ["alpha", "Beta", "gamma_x", "Delta1", "e2e", "Foo", "bar_", "_q", "Motor", "valve", "cnt", "Lvl",
+                 "Zone", "quiz", "JazzY", "wxyz", "Khj", "pdq"]
         return "%s%s%d" % (prefix, self.pick(stems), self.n)
 
     def choose(self, options):
@@ -299,30 +300,41 @@ class Gen:
 
     # ------------------------------------------------------------------ expressions
     def variable(self, names):
-        """A variable reference: named, field access or array subscript."""
+        """A variable reference: a name followed by a chain of field selectors and subscript lists
+        (a.b, a[i], a.b[i], a[i].b[j], a.b.c, a[i][j] ...); selectors apply left to right."""
         n = self.pick(names)
         k = self.choose([("expr.var.named", 6), ("expr.var.field", 1), ("expr.var.index", 1),
-                         ("expr.var.index.field", 1)])
+                         ("expr.var.index.field", 1), ("expr.var.chain", 1.5)])
         self.atom(k)
         if k == "expr.var.named":
             return [I(n)], ["name", n.lower()]
         if k == "expr.var.field":
-            f = self.pick(["fld", "Member1", "x"])
-            return [I(n), O(".", True), I(f, True)], ["field", ["name", n.lower()], f.lower()]
-        subs = []
-        stoks = []
-        for i in range(self.rng.randint(1, 2)):
-            t, e = self.expr(1, names)
-            if i:
-                stoks.append(O(","))
-            stoks += t
-            subs.append(e)
-        toks = [I(n), O("[", True)] + stoks + [O("]")]
-        nf = ["index", ["name", n.lower()], subs]
-        if k == "expr.var.index.field":
-            f = self.pick(["fld", "y"])
-            toks += [O(".", True), I(f, True)]
-            nf = ["field", nf, f.lower()]
+            shape = "f"
+        elif k == "expr.var.index":
+            shape = "i"
+        elif k == "expr.var.index.field":
+            shape = "if"
+        else:
+            shape = self.pick(["fi", "fif", "ifi", "ff", "fff", "ii", "ffi", "iff", "fii"])
+            self.atom("expr.var.chain." + shape)
+        toks = [I(n)]
+        nf = ["name", n.lower()]
+        for c in shape:
+            if c == "f":
+                f = self.pick(["fld", "Member1", "x", "items", "zq"])
+                toks += [O(".", True), I(f, True)]
+                nf = ["field", nf, f.lower()]
+            else:
+                subs = []
+                stoks = []
+                for i in range(self.rng.randint(1, 2)):
+                    t, e = self.expr(1 if len(shape) < 3 else 0, names)
+                    if i:
+                        stoks.append(O(","))
+                    stoks += t
+                    subs.append(e)
+                toks += [O("[", True)] + stoks + [O("]")]
+                nf = ["index", nf, subs]
         return toks, nf
 
     def expr_tree(self, depth, names):
